@@ -588,6 +588,8 @@ def _sg(ck: Checker, prog: Program):
         it_ok = _canon(RH.value(inner[0].iter, inner[0])) == _canon(RH.expect("enumerate(coefficients[:-1][::-1])"))
     except AnalysisError:
         it_ok = False
+    if not (isinstance(inner[0].target, ast.Tuple) and len(inner[0].target.elts) == 2):
+        raise AnalysisError(f"{h.qualname}: the loop over the coefficient pairs is not `for offset, coefficient in enumerate(...)`: pairing not decided")
     rel = unparse(inner[0].target.elts[0]) if isinstance(inner[0].target, ast.Tuple) else "?"
     cf = unparse(inner[0].target.elts[1]) if isinstance(inner[0].target, ast.Tuple) else "?"
     upd = [st for st in inner[0].body if isinstance(st, ast.AugAssign)]
